@@ -53,7 +53,7 @@ def _codes():
             for name, v in sorted(vars(holder).items()):
                 if hasattr(v, "__code__") and pat.search(name) and v not in fns:
                     fns.append(v)
-        _CODES = S.code_objects(*fns)
+        _CODES = S.code_closure(*fns)
     return _CODES
 
 
@@ -944,7 +944,7 @@ class RegistryWorld(World):
               "weak_collected", "weak_collected_unknown", "duplicate_refused", "reserved_refused", "forced", "class_registered",
               "generated_id", "registered_listing", "serpent", "json", "msgpack", "multiplex", "thread",
               "shape_len0", "shape_bool0", "shape_state", "par_make", "par_overlap", "par_gc_weak", "strong_survives_gc",
-              "shape_inst", "shape_noweak", "register_failed_frozen", "register_failed_noweak", "tracked_weak_collected"]
+              "shape_inst", "shape_noweak", "shape_eq", "register_failed_frozen", "register_failed_noweak", "tracked_weak_collected"]
     RULE = ("plan = (server type, generator tier core|extended, 3-10 steps (thorough: -16) of register / unregister / uriFor / "
             "proxyFor / call / return-object / gc / registered over 3 pool objects + 2 classes + ids id0..id2, generated, "
             "colliding ('the current or last id of object k'), reserved; force only in the extended tier; weak for objects; "
@@ -1176,7 +1176,9 @@ class RegistryWorld(World):
             plan["focus"] = "stale-unregister-weak-holder"
         shapes = ["plain", "plain", "plain"]
         if rng.random() < 0.5:
-            shapes = [rng.choice(["plain", "plain", "len0", "bool0", "state", "frozen", "noweak"]) for _ in range(3)]
+            shapes = [rng.choice(["plain", "plain", "len0", "bool0", "state", "frozen", "noweak", "eq"]) for _ in range(3)]
+            if rng.random() < 0.2:
+                shapes = ["eq"] * 3       # value-style objects: distinct objects that compare equal to each other
         if "focus" not in plan:
             r = rng.random()
             if r >= 0.09 and r < 0.15:
